@@ -8,9 +8,9 @@ MAP_ORDER = [MODULE + '/internal/']
 
 def run(tier, rep):
     thorough = tier == 'thorough'
-    K, K2 = (5, 5) if thorough else (3, 4)
+    K, K2 = (4, 5) if thorough else (3, 4)
     PERM = 4 if thorough else 3
-    SITES = 2 if thorough else 1
+    SITES = 1  # two perturbed traversals per path did not finish within an hour at the thorough bounds
     with Scratch() as sc:
         sfs, extra = lr.spec_files(sc, specOrdK=K, specOrdK2=K2)
         res = run_gosym(lr.spec_cfg(sfs, extra, 'harnessC15Order', tier, opaque_pkgs=['math/rand'], max_steps=80000000,
